@@ -461,13 +461,15 @@ func (a *natsKeyValueAdapter) Watch(key string, opts ...interface{}) (Watcher, e
 	if err != nil {
 		return nil, err
 	}
-	return &natsWatcherAdapter{watcher: natsWatcher}, nil
+	return &natsWatcherAdapter{watcher: natsWatcher, stopped: make(chan struct{})}, nil
 }
 
 type natsWatcherAdapter struct {
 	watcher   nats.KeyWatcher
 	once      sync.Once
 	entryChan chan Entry
+	stopOnce  sync.Once
+	stopped   chan struct{} // closed by Stop
 }
 
 // Updates returns the channel on which the watcher's entries are delivered.
@@ -481,10 +483,16 @@ func (a *natsWatcherAdapter) Updates() <-chan Entry {
 		go func() {
 			defer close(a.entryChan)
 			for natsEntry := range a.watcher.Updates() {
+				var entry Entry
 				if natsEntry != nil {
-					a.entryChan <- &natsEntryAdapter{entry: natsEntry}
-				} else {
-					a.entryChan <- nil
+					entry = &natsEntryAdapter{entry: natsEntry}
+				}
+				// After Stop nobody may be receiving any more; entries still
+				// pending must not keep this goroutine blocked for ever.
+				select {
+				case a.entryChan <- entry:
+				case <-a.stopped:
+					return
 				}
 			}
 		}()
@@ -493,6 +501,7 @@ func (a *natsWatcherAdapter) Updates() <-chan Entry {
 }
 
 func (a *natsWatcherAdapter) Stop() {
+	a.stopOnce.Do(func() { close(a.stopped) })
 	_ = a.watcher.Stop()
 }
 
